@@ -194,8 +194,13 @@ def classify(argv, stdin=None):
         if sub == "config":
             return (tool, "probe_remote", {})
         if sub == "branch":
-            return (tool, "probe_branches", {})
-        if sub in ("remote", "log", "describe", "show", "for-each-ref", "ls-files", "diff"):
+            return (tool, "probe_branches", {"show_current": "--show-current" in rest})
+        if sub == "symbolic-ref":
+            return (tool, "probe_head", {"short": "--short" in rest, "quiet": "-q" in rest or "--quiet" in rest})
+        if sub == "for-each-ref":
+            opts, pos = _split_opts(rest, {"--sort", "--count", "--merged", "--contains", "--points-at"})
+            return (tool, "probe_refs", {"format": opts.get("--format"), "patterns": pos})
+        if sub in ("remote", "log", "describe", "show", "ls-files", "diff"):
             return (tool, "probe_other", {})
         return (tool, "unknown", {})
     if tool == "hg":
@@ -273,6 +278,7 @@ class FakeRepo:
         self.remote = remote
         self.tracking = tracking
         self.remote_name = remote_name      # `git clone -o my-fork`: remote names may hold '-', '.', '_'
+        self.detached = False               # HEAD points at the tip commit of `head` without being on that branch (CI checkouts)
 
         self.parents = {}       # commit id -> [parent ids]
         self.branches = {}      # name -> commit id
@@ -364,7 +370,8 @@ class FakeRepo:
         h.update(repr((self.personality, self.remote, self.tracking, sorted(self.parents.items()),
                        sorted(self.branches.items()), self.head, sorted(self.tags.items()),
                        self.status, sorted(self.staged), self.commit_log, self.tag_log, self.push_log,
-                       self.fetch_count, self.pending_remote_tags, self.moved_remote_tags)).encode("utf-8", "surrogateescape"))
+                       self.fetch_count, self.pending_remote_tags, self.moved_remote_tags, self.detached,
+                       self.remote_name)).encode("utf-8", "surrogateescape"))
         return h.hexdigest()[:16]
 
     # ---- command execution -------------------------------------------------------------------
@@ -530,10 +537,29 @@ class FakeRepo:
             if self.remote and self.remote_name == "origin":
                 return (0, b"git@example.com:sim/project.git\n", b"")
             return (1, b"", b"")
+        if role == "probe_head":
+            if self.detached:
+                return (128 if not info.get("quiet") else 1, b"", b"fatal: ref HEAD is not a symbolic ref\n")
+            return (0, ((self.head if info.get("short") else "refs/heads/" + self.head) + "\n").encode("utf-8"), b"")
+        if role == "probe_refs":
+            fmt = info.get("format")
+            refs = [p for p in info.get("patterns", []) if p.startswith("refs/heads/")]
+            if fmt in ("%(upstream:remotename)", "%(upstream:short)", "%(upstream)") and len(refs) == 1:
+                name = refs[0][len("refs/heads/"):]
+                if name in self.branches and self.remote and self.tracking:
+                    val = {"%(upstream:remotename)": self.remote_name, "%(upstream:short)": "%s/%s" % (self.remote_name, name),
+                           "%(upstream)": "refs/remotes/%s/%s" % (self.remote_name, name)}[fmt]
+                    return (0, (val + "\n").encode("utf-8"), b"")
+                return (0, b"\n" if name in self.branches else b"", b"")
+            raise ValueError("FakeRepo does not model `git for-each-ref` with format %r and patterns %r" % (fmt, info.get("patterns")))
+        if role == "probe_branches" and info.get("show_current"):
+            return (0, b"" if self.detached else (self.head + "\n").encode("utf-8"), b"")
         if role == "probe_branches":
             lines = []
+            if self.detached:
+                lines.append("* (HEAD detached at %s) %s simulated subject\n" % (self.head_commit(), self.head_commit()))
             for name in sorted(self.branches):
-                star = "*" if name == self.head else " "
+                star = "*" if (name == self.head and not self.detached) else " "
                 track = "[%s/%s] " % (self.remote_name, name) if (self.remote and self.tracking) else ""
                 lines.append("%s %s %s %ssimulated subject\n" % (star, name, self.branches[name], track))
             return (0, "".join(lines).encode("utf-8"), b"")
